@@ -42,7 +42,9 @@ fn main() {
                 }
                 i += 1;
             }
-            std::process::exit(run_check(p, tier))
+            let code = run_check(p, tier);
+            vp::engine::remove_worker_exe();
+            std::process::exit(code)
         }
         "gen-selftest" => {
             // development aid: do generated programs parse?
@@ -94,7 +96,9 @@ fn main() {
         "replay" => {
             let p = vp::props::by_id(args.get(2).map(|s| s.as_str()).unwrap_or("")).unwrap_or_else(|| usage());
             let f = args.get(3).unwrap_or_else(|| usage());
-            std::process::exit(run_replay(p, Path::new(f)))
+            let code = run_replay(p, Path::new(f));
+            vp::engine::remove_worker_exe();
+            std::process::exit(code)
         }
         _ => usage(),
     }
